@@ -9,6 +9,7 @@
 package downloader
 
 import (
+	"sync/atomic"
 	"time"
 
 	"github.com/youchainhq/go-youchain/common"
@@ -175,3 +176,12 @@ var (
 	VerifC18ErrTimeout          = errTimeout
 	VerifC18ErrCanceled         = errCanceled
 )
+
+// VerifC18BodyBusy tells whether the peer is marked busy for body fetches.
+func (d *Downloader) VerifC18BodyBusy(id string) (busy bool, registered bool) {
+	p := d.peers.Peer(id)
+	if p == nil {
+		return false, false
+	}
+	return atomic.LoadInt32(&p.blockIdle) != 0, true
+}
